@@ -227,7 +227,7 @@ fn run_case<G: AffineRepr>(env: &Env<G>, c: &Case) -> CaseOut {
 
 fn cases(ctx: &Ctx, curve: &str) -> Vec<Case> {
     let mut r = R::new(ctx.sub_seed(7, curve.len() as u64));
-    let n = ctx.n(6, 300);
+    let n = ctx.n(20, 400);
     (0..n).map(|i| Case { curve: curve.into(), seed: r.u64(), big: i % 3 == 0 }).collect()
 }
 
